@@ -438,6 +438,11 @@ def check_get_executed(rep, db, f, inst):
     ps = Engine(db).run(f)
     for p in ps:
         mp = [e for e in p.events if e.kind == "CALL" and q.short(e.a) in ("make_pair", "pair")]
+        if not mp:
+            # the pair built directly (`return {a, b}` / std::pair<A, B>(a, b)): the engine models that constructor natively
+            from ..engine import Ev as Event
+            mp = [Event("CALL", e.b, list(e.c or []), None, loc=e.loc, extra={"argvals": [p.state.mem.get(("fld", e.a, "first")), p.state.mem.get(("fld", e.a, "second"))]}) for e in p.events
+                  if e.kind == "CTOR" and (e.extra or {}).get("native") and str(e.b).startswith("std::pair<") and len(e.c or []) == 2]
         if len(mp) != 1:
             rep.violation(rule, site(f), "result pair not built exactly once", f["loc"], inst)
             return
@@ -457,6 +462,9 @@ def check_get_executed(rep, db, f, inst):
                 return norm(p.state.mem.get(t[1]), d + 1)
             if t[:1] in (("var",), ("tmp",)) and p.state.mem.get(t) is not None and not isinstance(p.state.mem.get(t), dict):
                 return norm(p.state.mem.get(t), d + 1)
+            if t[:1] == ("fld",) and isinstance(t[1], tuple) and t[1][:1] in (("var",), ("tmp",)) and p.state.mem.get(("copyof", t[1])) is not None and t not in p.state.mem:
+                # a member of a by-value copy of an object (e.g. a structured binding of `*per_thread_data()`): the member of the original
+                return norm(("fld", p.state.mem.get(("copyof", t[1]))) + t[2:], d + 1)
             return tuple(norm(x, d + 1) if isinstance(x, tuple) else x for x in t)
         sb, key = [norm(val(x)) for x in argvals(mp[0])[:2]]
         if isinstance(key, tuple) and key[:1] in (("idx",), ("fld",)):
